@@ -80,9 +80,7 @@ fn run_case_lb(seq: &[Op], loopback: bool, trace: bool) -> CaseResult {
     let mut stream_sizes: Vec<(Op, i64)> = vec![];
     let mut browse_baseline: Option<HashMap<String, i64>> = None;
     let mut orphan_growth: HashMap<String, i64> = HashMap::new();
-    let mut subtype_entries_left = false;
     let mut ptrs_at_browse_start: i64 = 0;
-    let mut type_entry_from_resolver_time = false;
     let mut trail = String::new();
     let metrics = |w: &mut World| -> HashMap<String, i64> { w.metrics(0).unwrap_or_default() };
     let g = |m: &HashMap<String, i64>, k: &str| m.get(k).copied().unwrap_or(0);
@@ -217,7 +215,6 @@ fn run_case_lb(seq: &[Op], loopback: bool, trace: bool) -> CaseResult {
                         // context: the PTR records left are exactly the subtype PTRs of the instances
                         let ex = |c: &str| g(&now_m, c) - g(base, c) - orphan_growth.get(c).copied().unwrap_or(0);
                         let subtype_ptrs = ex("cached-ptr") > 0 && ex("cached-ptr") == ex("cached-subtype");
-                        subtype_entries_left |= subtype_ptrs;
                         for c in ["cached-ptr", "cached-srv", "cached-txt", "cached-subtype"] {
                             let allowed = g(base, c) + orphan_growth.get(c).copied().unwrap_or(0);
                             if g(&now_m, c) > allowed {
@@ -276,9 +273,6 @@ fn run_case_lb(seq: &[Op], loopback: bool, trace: bool) -> CaseResult {
                     }
                 }
             }
-            if resolving && !browsing && !unsolicited && grew.iter().any(|(c, _)| c == "cached-ptr") {
-                type_entry_from_resolver_time = true;
-            }
             // (1) nothing is kept when nothing asked for it
             if !browsing && !resolving && !unsolicited && !grew.is_empty() {
                 // the corpus packets without a PTR are the same situation as the orphan stream
@@ -288,10 +282,10 @@ fn run_case_lb(seq: &[Op], loopback: bool, trace: bool) -> CaseResult {
                 let only_ptr = grew.iter().all(|(c, _)| c == "cached-ptr");
                 let what = match op {
                     Op::OrphanStream | Op::HostileCorpus => "srv-txt-addr-nsec-without-ptr",
-                    _ if only_ptr && subtype_entries_left => "subtype-ptrs-admitted-through-entries-left-by-stop_browse",
-                    // a PTR entry of the type was created while a resolver was open (finding
-                    // '...while-only-a-resolver-is-open') and outlives stop_resolve_hostname
-                    _ if only_ptr && type_entry_from_resolver_time => "ptrs-admitted-through-an-entry-created-while-a-resolver-was-open",
+                    // call site: DnsCache::add_or_update admits a record that is 'not for us' whenever
+                    // its name already has an entry (left by stop_browse's subtype PTRs, created while a
+                    // resolver or accept_unsolicited was on, ...)
+                    _ if only_ptr && g(&before, "cached-ptr") > 0 => "ptr-admitted-because-its-name-already-has-an-entry",
                     _ => "other",
                 };
                 res.viols.push(viol(
